@@ -33,6 +33,21 @@ class C06(Monitor):
         self.journeys: Dict[str, Dict[str, Any]] = {}  # vid -> {"instance", "route0", "pieces"}
         self.arrived: Dict[str, Any] = {}  # vid -> instance id that had an empty route after the previous step
         self.edge = h3.edge_length(int(ctx.s.sim_h3_location_resolution), "km")
+        # what the road allows comes from the inputs: on generated street networks every link's speed in the loaded link table
+        # must be the speed the network file gives that street, or network.default_speed_kmph where the file gives none
+        net = (ctx.spec.get("network") or {}) if isinstance(ctx.spec, dict) else {}
+        if net.get("type") == "grid" and hasattr(ctx.s.road_network, "link_helper"):
+            from hivemon.gen import graph as G
+
+            dflt = float(net.get("default_speed_kmph", 40.0))
+            want = {}
+            for a, b, d in G.grid(net).edges(data=True):
+                want.setdefault(f"{a}-{b}", float(d.get("speed_kmph", dflt)))
+            for lid, l in ctx.s.road_network.link_helper.links.items():
+                ctx.count("c06_link_speeds_compared_with_the_network_file")
+                if lid in want and abs(l.speed_kmph - want[lid]) > 1e-9:
+                    ctx.violate("C06", "link-speed-differs-from-the-network-file", f"link {lid} is loaded with {l.speed_kmph} km/h, the network file (with network.default_speed_kmph = {dflt}) says {want[lid]}", link=lid)
+                    break
 
     def on_step(self, ctx):
         s, prev = ctx.s, ctx.prev
